@@ -2,6 +2,10 @@ import Driver.Util
 import Driver.Ssbs
 import ESV.Comp.Backend
 import ESV.Comp.LabSem
+import ESV.Comp.FrontW13
+import ESV.Comp.ToSrcEq
+import ESV.Comp.CodegenF0e
+import Driver.Beh
 import ESV.SsbScript.Closed
 open Lean Drv ESV ESV.Comp
 
@@ -10,6 +14,8 @@ open Lean Drv ESV ESV.Comp
 comp.compile  {prog: Comp AST (harness/gen/complower.py)}  →  {"ok": {ops, infos, coros}} | {"error": class}
 comp.frontend {prog}  →  the labelled code before the back end + whether its op offsets are pairwise distinct
 comp.backend  {routines: labelled code}  →  ops | error   (the three back-end passes on arbitrary labelled code)
+comp.tosrc    {prog, core}  →  {"agree": bool, "f0": bool}: `toSrc prog` against the core program lowered for `Src.tr`;
+              whether `prog` is in fragment F0 (`compile_correct_F0`)
 comp.wfl      {prog}  →  {"wfl": bool, one flag per conjunct} | {"error": class}: the hypothesis `WFL` of the back-end theorem
               (ESV/Props/C01Backend.lean `backend_preserves`) evaluated on the labelled code the front-end model produces
 -/
@@ -132,9 +138,15 @@ def handle (op : String) (j : Json) : R Json := do
     | .error e => pure (Json.mkObj [("error", .str e.name)])
     | .ok t =>
       let rs := t.ops
-      pure (Json.mkObj [("wfl", .bool (decide (WFL rs))), ("distinct", .bool (decide (DistinctOffsets rs))),
+      pure (Json.mkObj [("wfl", .bool (decide (WFL rs))), ("guard", .bool (decide (FrontGuard p))), ("distinct", .bool (decide (DistinctOffsets rs))),
         ("labels", .bool (decide (labelIds rs.flatten).Nodup)), ("raw", .bool (rs.flatten.all rawOK)),
         ("root", .bool (rs.flatten.all rootOK)), ("ctx", .bool (rs.all ctxOK)), ("cond", .bool (rs.all condOK))])
+  | "comp.tosrc" =>
+    -- tie of `toSrc`: the source program the harness lowers for the language semantics against `toSrc` of the program
+    -- it lowers for the compiler model
+    let p ← programOf (← fld j "prog")
+    let core ← Drv.BehD.programOf (← fld j "core")
+    pure (Json.mkObj [("agree", .bool (srcAgrees (toSrc p) core)), ("f0", .bool (decide (F0Prog p)))])
   | "comp.backend" =>
     let rs ← (← asArr (← fld j "routines")).mapM fun r => do (← asArr r).mapM itemOf
     pure (resultTo (backend rs) [] [])
